@@ -173,7 +173,8 @@ class FormulaParser(Parser):
         elif len(p) == 5:  # two rows and a trailing separator: an empty slot, as in a flat array
             p[0] = [p[1], p[3], None]
         else:
-            p[0] = p[1] + [p[3]]
+            p[1].extend([p[3]])  # in place: a copy per item made long lists quadratic
+            p[0] = p[1]
 
     def p_expseq_semicolon(self, p):
         """
@@ -194,15 +195,18 @@ class FormulaParser(Parser):
             elif p[1] == ';':
                 p[0] = [None] + p[2]
             else:
-                p[0] = p[1] + [None]
+                p[1].extend([None])  # in place: a copy per item made long lists quadratic
+                p[0] = p[1]
         elif p[2] == ';':
             if len(p) == 5:  # two separators: an empty slot
-                p[0] = p[1] + [None, p[4]]
+                p[1].extend([None, p[4]])  # in place: a copy per item made long lists quadratic
+                p[0] = p[1]
             else:
                 if str(p.slice[1]) in ('expseqcomma', 'expseqbackslash'):
                     p[0] = [p[1]] + [p[3]]
                 else:
-                    p[0] = p[1] + [p[3]]
+                    p[1].extend([p[3]])  # in place: a copy per item made long lists quadratic
+                    p[0] = p[1]
 
     def p_expseq_comma(self, p):
         """
@@ -221,13 +225,16 @@ class FormulaParser(Parser):
             elif p[1] == ',':
                 p[0] = [None] + p[2]
             else:
-                p[0] = p[1] + [None]
+                p[1].extend([None])  # in place: a copy per item made long lists quadratic
+                p[0] = p[1]
         elif p[2] == ',':
             # expseqcomma COMMA COMMA expression
             if len(p) == 5:  # e.g. an empty function argument
-                p[0] = p[1] + [None, p[4]]
+                p[1].extend([None, p[4]])  # in place: a copy per item made long lists quadratic
+                p[0] = p[1]
             else:
-                p[0] = p[1] + [p[3]]
+                p[1].extend([p[3]])  # in place: a copy per item made long lists quadratic
+                p[0] = p[1]
 
     def p_expseq_backslash(self, p):
         """
@@ -246,12 +253,15 @@ class FormulaParser(Parser):
             elif p[1] == '\\':
                 p[0] = [None] + p[2]
             else:
-                p[0] = p[1] + [None]
+                p[1].extend([None])  # in place: a copy per item made long lists quadratic
+                p[0] = p[1]
         elif p[2] == '\\':
             if len(p) == 5:  # two separators: an empty slot
-                p[0] = p[1] + [None, p[4]]
+                p[1].extend([None, p[4]])  # in place: a copy per item made long lists quadratic
+                p[0] = p[1]
             else:
-                p[0] = p[1] + [p[3]]
+                p[1].extend([p[3]])  # in place: a copy per item made long lists quadratic
+                p[0] = p[1]
 
     def p_xlerror(self, p):
         """
